@@ -11,11 +11,14 @@ OPT / CLONE suites):
   the store now reports.  The driver runs this checker on every generated case (certified per run).
 * `optimize_retained_prefix_unchanged`, `optimize_retained_roots_fixed`: universal — the retained prefix is
   cell-for-cell unchanged, the retention count is unchanged, roots inside the prefix map to themselves.
-* `clone_original_untouched`: universal — `clone_data` only appends; every existing cell, the heads, the
-  symbol table and the retention count are unchanged.
+* `clone_original_untouched`, `clone_keeps_every_value`: universal — `clone_data` only appends; every
+  existing cell, the heads, the symbol table and the retention count are unchanged, every decodable address
+  unfolds as before.
+* `clone_preserves`: universal — the address returned by `clone_data` unfolds to the same tree as the argument
+  (index-stack ordering invariant + first-match lookup + bisimulation), for every acyclic well-formed graph.
 
-What is stated but not proved universally (`…_statement`): that the returned clone / the relocated
-roots unfold to the same tree.  The witnesses below show why the hypotheses of the statement are needed:
+What is stated but not proved universally (`C19_optimize_preserves_statement`): that the relocated roots of
+`optimize` unfold to the same tree (same invariant as for cloning, plus the offset arithmetic of the slide).  The witnesses below show why the hypotheses of the statement are needed:
 the unchanged Rust violates C19 when they fail, through public methods only.
 -/
 import Garnish.Lemmas.Optimize
@@ -110,12 +113,45 @@ theorem clone_original_untouched {s s' : Store} {a r : Nat} (h : Store.cloneData
   exact ⟨e.mono, fun i hi => e.keep i hi hi, e.frame⟩
 
 /-- full statement for cloning: the returned address unfolds to the same tree as the argument whenever the
-argument has an unfolding at all (acyclic, well-formed graph).  NOT proved universally; certified per run. -/
+argument has an unfolding at all (acyclic, well-formed graph) and every list header has a key table no longer
+than the list (`ListsWF`, what `end_list` produces).  PROVED: `clone_preserves`. -/
 def clone_preserves_statement : Prop :=
-  ∀ (s s' : Store) (a r : Nat), (∃ fuel t, unfold s.cells fuel a = some t) →
-    Store.cloneData s a = .ok (s', r) → ∀ fuel, unfold s'.cells fuel r = unfold s.cells fuel a
+  ∀ (s s' : Store) (a r : Nat), ListsWF s.cells → Dec s.cells a →
+    Store.cloneData s a = .ok (s', r) → ∀ fuel, unfold s.cells fuel a = unfold s'.cells fuel r
 
-/-- proved part of `clone_preserves_statement`: the original is intact -/
+/-- **clone_preserves** — universal: `clone_data` returns the address of a value that unfolds to the same tree
+as its argument (lists with their key tables, pairs, ranges, slices, partials, concatenations, text, bytes,
+symbol lists, scalars, register / value / frame cells), at every fuel.
+Proof: induction over the reversed walk of the index list (`cloneLoop_step_inv`): every processed position holds
+`CloneIndexMap(o, n)` with `n = o` or `n` a faithful copy of `o` whose links are processed entries (found by
+first-match lookup) or retained addresses; the final relation is a bisimulation (`bisim_unfold`). -/
+theorem clone_preserves {s s' : Store} {a r : Nat} (h : Store.cloneData s a = .ok (s', r))
+    (hnl : ListsWF s.cells) (hd : Dec s.cells a) : ∀ fuel, unfold s.cells fuel a = unfold s'.cells fuel r :=
+  cloneData_preserves h hnl hd
+
+theorem clone_preserves_statement_holds : clone_preserves_statement :=
+  fun _ _ _ _ hwf hd h => clone_preserves h hwf hd
+
+/-- the decoded values agree -/
+theorem clone_preserves_decode {F : Type} (numOf : Nat → Number F) {s s' : Store} {a r : Nat}
+    (h : Store.cloneData s a = .ok (s', r)) (hnl : ListsWF s.cells) (hd : Dec s.cells a) :
+    ∀ fuel, decode numOf s.cells fuel a = decode numOf s'.cells fuel r := by
+  intro fuel
+  simp [decode, clone_preserves h hnl hd fuel]
+
+/-- `clone_data` keeps every decodable address (values, stack heads) structurally as it was — with or
+without lists -/
+theorem clone_keeps_every_value {s s' : Store} {a r : Nat} (h : Store.cloneData s a = .ok (s', r))
+    {x : Nat} (hx : Dec s.cells x) : ∀ fuel, unfold s.cells fuel x = unfold s'.cells fuel x := by
+  have e := cloneData_original_untouched h
+  refine unfold_agree (fun i c hc _ => ?_) hx
+  have hi : i < s.cells.size := by
+    rcases Nat.lt_or_ge i s.cells.size with h | h
+    · exact h
+    · rw [Array.getElem?_eq_none h] at hc; cases hc
+  rw [e.keep i hi hi]; exact hc
+
+/-- proved part of `clone_preserves_statement` that holds for all heaps: the original is intact -/
 theorem clone_preserves_partial {s s' : Store} {a r : Nat} (h : Store.cloneData s a = .ok (s', r)) :
     (∀ i, i < s.cells.size → s'.cells[i]? = s.cells[i]?) ∧ SameFrame s s' :=
   ⟨(clone_original_untouched h).2.1, (clone_original_untouched h).2.2⟩
